@@ -191,7 +191,7 @@ func pickTools(names ...string) []toolDef {
 // initialize answer advertises other capabilities).
 var Registries = map[string]*Registry{
 	"full":  {Name: "full", tools: allTools, prompts: allPrompts, resources: allResources},
-	"small": {Name: "small", tools: pickTools("echo", "boom"), prompts: allPrompts[:1], resources: allResources[:1]},
+	"small": {Name: "small", tools: pickTools("echo", "boom", "chan"), prompts: allPrompts[:1], resources: allResources[:1]},
 	"bare":  {Name: "bare", tools: pickTools("text")},
 }
 
